@@ -138,7 +138,8 @@ pub fn cases(tier: &str, seed: u64) -> Vec<Case> {
         let many = i % 30 == 7;
         let count = if many { r.range(6, if thorough { 200 } else { 60 }) } else { r.below(5) };
         for _ in 0..count {
-            let klen = if r.chance(1, 20) && !many { 0 } else { r.range(1, 12) as usize };
+            // keys of a dozen bytes mostly; now and then a key that fills most of an entry, or all of it (a bare flag of 255 bytes)
+            let klen = if r.chance(1, 20) && !many { 0 } else if r.chance(1, 25) { *r.pick(&[100usize, 200, 250, 254, 255, 256]) } else { r.range(1, 12) as usize };
             let key: String = rand_string(&mut r, klen).chars().filter(|c| *c != '=').collect();
             let val = match r.below(4) {
                 0 => None,
@@ -218,7 +219,7 @@ pub fn cases(tier: &str, seed: u64) -> Vec<Case> {
             let _ = simple_dns::verif::rdata_write(&rdata::RData::TXT(t2.clone()), &mut b2);
             let _ = simple_dns::verif::rdata_write(&rdata::RData::TXT(t3.clone()), &mut b3);
             if !ok || t2.verif_strings() != t.verif_strings() || t3.verif_strings() != t.verif_strings() || b1 != b2 || b1 != b3
-                || simple_dns::verif::rdata_len(&rdata::RData::TXT(t2.clone())) != b2.len() || t2.attributes() != attrs {
+                || simple_dns::verif::rdata_len(&rdata::RData::TXT(t2.clone())) != b2.len() || simple_dns::verif::rdata_len(&rdata::RData::TXT(t3.clone())) != b3.len() || t2.attributes() != attrs || t3.attributes() != attrs {
                 c = c.fail("txt-entry-points", format!("add_string / with_string build another record than add_char_string for {:?}", texts));
             }
         }
